@@ -2,7 +2,8 @@
 import json
 import os
 
-DIR = os.path.join(os.path.dirname(os.path.dirname(os.path.abspath(__file__))), "evidence")
+# VERIF_EVIDENCE_DIR: used by the mutant runners so that runs against scratch copies never overwrite real evidence
+DIR = os.environ.get("VERIF_EVIDENCE_DIR") or os.path.join(os.path.dirname(os.path.dirname(os.path.abspath(__file__))), "evidence")
 
 
 def write(prop, tier, seed, plan, tot, wall, n_viol, violations, known_lines):
